@@ -61,6 +61,16 @@ def enumerate_cases(tier):
                 crow[h] = "f.png" if h.split("::")[0] != "label" else "t"
             yield {"form": {"nodes": [{"k": "q", "c": {"type": "select_one l", "name": "q", "label": "Q"}}],
                             "lists": [{"name": "l", "rows": [crow]}], "args": {}}, "meta": {"kind": "choices-headers"}}
+    # or_other with every layout of one or two named languages on either sheet
+    lay_s = [("label",), (f"label::{A}",), ("label", f"label::{A}"), (f"label::{A}", f"label::{B}"), (f"label::{A}", f"hint::{A}"), ("label", "hint")]
+    lay_c = [("label",), (f"label::{A}",), ("label", f"label::{A}"), (f"label::{A}", f"label::{B}")]
+    for hs in lay_s:
+        for hc in lay_c:
+            for oo in ("or_other", ""):
+                row = {"type": f"select_one l {oo}".strip(), "name": "q"}
+                row.update({h: "t" for h in hs})
+                yield {"form": {"nodes": [{"k": "q", "c": row}], "lists": [{"name": "l", "rows": [{"name": "c1", **{h: "t" for h in hc}}]}], "args": {}},
+                       "meta": {"kind": "or-other-languages"}}
     step = 4 if tier == "quick" else 1
     for key in ("settings", "entities"):
         alpha = sorted(set(key) | {"x", "_", "S"})
@@ -131,6 +141,16 @@ def _cases(draw):
         form.setdefault("settings", {})["allow_choice_duplicates"] = "yes"
     if g.p("_", 0.3):
         form["extra_sheets"] = [g.pick(["setting", "settingss", "_settings", "Settings2", "entity", "entitie", "_entities", "notes", "sett", "choicez", "osmm"])]
+    if g.p("_", 0.1) and "form_id" in form.get("settings", {}) and "id_string" not in form["settings"]:
+        # both id columns, only the id_string cell filled in: the headers are the trigger
+        st_ = form["settings"]
+        form["settings"] = {("id_string" if k == "form_id" else k): v for k, v in st_.items()}
+        form["settings_header_extra"] = ["form_id"]
+    if form.get("lists") and g.p("_", 0.12):
+        form["choices_blank_at"] = g.integer(0, 50)
+    if g.p("_", 0.12):
+        # cells taken as typed: row numbers in warnings must not depend on the switch
+        form.setdefault("settings", {})["clean_text_values"] = g.pick(["no", "false"])
     if not form.get("settings") and g.p("_", 0.2):
         # a settings sheet that only has its header row yet, perhaps beside an unrelated sheet with a similar name
         form["settings_header_only"] = ["form_title", "form_id", "version"]
